@@ -191,3 +191,13 @@ func VerifC10PrepareNodeRemovalTime(now, epoch uint64) (uint64, bool) {
 func VerifC10MainnetSignerSetForkAt() uint64 { return mainnetConsensusNodeRemovalSignerSetForkAt }
 
 const VerifC10OneDay = OneDay
+
+// VerifC10ChainWithInfo is VerifC10Chain with the chain identity supplied by
+// the caller instead of being read at the wall-clock time.
+func (node *Node) VerifC10ChainWithInfo(chainId crypto.Hash, info *CNode, established bool) *Chain {
+	chain := &Chain{node: node, ChainId: chainId, persistStore: node.persistStore, ConsensusInfo: info}
+	if established {
+		chain.State = &ChainState{RoundLinks: make(map[crypto.Hash]uint64)}
+	}
+	return chain
+}
